@@ -49,6 +49,11 @@ ASSUMPTIONS = [
     "modification times are set explicitly (os.utime, logical clock, 10 s ticks): every edit is "
     "strictly later than the cache file, as the statement requires; equal or earlier mtimes are "
     "outside the property",
+    "a version change is made observable by the harness: while the check runs, api._compile_model "
+    "is wrapped so that every compile (transfer_model's and the reference's) stamps the model with "
+    "the api.__version__ it ran under (one string parameter, carried by save_model/load_model like "
+    "any other); with a single source tree all versions would otherwise compile alike and serving "
+    "a cache written by another version could not differ from a fresh compile",
     "library_folders and mtime_check are not varied (the code documents the first as deliberately "
     "unchecked; the second is the user opting out); files are never deleted or renamed",
     "codegen: the model returned by the previous transfer is dropped (and garbage-collected) "
@@ -62,7 +67,7 @@ ASSUMPTIONS = [
     "recompile and is (correctly) not a violation of the statement",
 ]
 SHARDS = {"quick": 16, "thorough": 16}
-SOFT_BUDGET_S = {"quick": 75, "thorough": 800}
+SOFT_BUDGET_S = {"quick": 150, "thorough": 800}
 
 OPTION_KEYS = [
     "expand_vectors",
@@ -570,6 +575,8 @@ class Sim:
             if not cached:
                 labels.append("valid_cache_recompiled")
         labels.append("result:CachedModel" if cached else "result:recompiled")
+        if mode == "codegen":
+            labels.append("codegen:CachedModel" if cached else "codegen:compiled")
         labels.extend(sorted("after:" + k for k in self.since_transfer))
         self.since_transfer = set()
         nontrivial = bool(stale)
@@ -668,21 +675,25 @@ def make_machine(ctx, memo, budget):
                 cand = [v for v in sim.eligible_m() if key in m_requires(v) and v != sim.files["M"]]
                 self._do(["rewrite", "M", cand[variant % len(cand)]])
 
-        @rule(k=st.sampled_from(OPTION_KEYS))
-        def set_option(self, k):
+        @rule(k=st.sampled_from(OPTION_KEYS), then_transfer=st.booleans())
+        def set_option(self, k, then_transfer):
             if self.dead:
                 return
             cur = self.sim.opts.get(k, self.sim._default(k))
             self._do(["option", k, not cur])
+            if then_transfer:
+                self._transfer("cache")
 
-        @rule(v=st.integers(0, 2))
-        def set_version(self, v):
+        @rule(v=st.integers(0, 2), then_transfer=st.booleans())
+        def set_version(self, v, then_transfer):
             if self.dead:
                 return
             new = VERSIONS[v]
             if new == self.sim.version:
                 new = VERSIONS[(v + 1) % len(VERSIONS)]
             self._do(["version", new])
+            if then_transfer:
+                self._transfer("cache")
 
         def _transfer(self, mode):
             if self.dead:
@@ -696,8 +707,13 @@ def make_machine(ctx, memo, budget):
                     mode = "cache"
             self._do(["transfer", mode])
 
-        @rule(mode=st.sampled_from(["cache"] * 8 + ["codegen"] * 2))
-        def transfer(self, mode):
+        @rule(mode=st.sampled_from(["cache"] * 8 + ["codegen"] * 2), again=st.booleans())
+        def transfer(self, mode, again):
+            if self.dead:
+                return
+            sim = self.sim
+            if again and sim.cache is not None and sim.cache["opts"]["codegen"] and not sim.stale_reasons("codegen"):
+                mode = "codegen"  # a valid code-generated cache exists: load it (no gcc run)
             self._transfer(mode)
 
         @rule()
@@ -762,7 +778,9 @@ MANIFEST = dict(
     "is regression detection for the mtime walk, the version check and the option comparison.",
     note="Trusts api._compile_model (fresh compile) as the meaning of 'compiling the current "
     "sources', vf.canon.compare_models as the meaning of 'equal', and os.utime/os.stat for "
-    "explicit modification times.",
+    "explicit modification times.  A version change is made observable by a harness wrapper "
+    "around api._compile_model that stamps every compiled model with the api.__version__ in force "
+    "(applies to transfer_model's compiles and to the reference alike).",
     technique="stateful differential testing (Hypothesis rule-based machine) against a cache-free "
     "recompile, with a logical clock for file modification times",
 )
